@@ -45,6 +45,9 @@ def apply(Y, u, op):
         q = a[0]
         q = {S(k): (S(v) if isinstance(v, str) else v) for k, v in q.items()}
         return getattr(u, name[:-7])(q)
+    if name.endswith(("_tuple", "_list")) and name.rsplit("_", 1)[0] in ("with_query", "update_query", "extend_query"):
+        pairs = [tuple(p) for p in a[0]]
+        return getattr(u, name.rsplit("_", 1)[0])(tuple(pairs) if name.endswith("_tuple") else pairs)
     if name in ("with_query", "update_query", "extend_query"):
         q = a[0]
         if isinstance(q, list):
